@@ -79,6 +79,8 @@ def pool_compose(a, b):
 
 
 def run(facts, chk, tier, only=None):
+    from . import cli_parsers
+    cli_parsers.check_usize_options(facts, chk, 'C11.opt', 'threads')
     from . import buildops
     # the parallel build, functionally: sample i owns name i and column i for every recursion depth
     chk.guard('C11.func', 'C11.func:parallel_append', lambda: buildops.check_parallel_append(facts, chk, 'C11.func', tier))
